@@ -2734,7 +2734,8 @@ def mpf2expansion(dtype, x, length=None, functional=False, base=None):
     """Transform mpf instance to an FP expansion."""
     if isinstance(x, list):
         return [mpf2expansion(dtype, x_, length=length, functional=functional, base=base) for x_ in x]
-    if x.context.isinf(x):
+    if x.context.isinf(x) or x.context.isnan(x):
+        # (a NaN would never satisfy the loop's exit tests)
         lst = [mpf2float(dtype, x)]
     else:
         lst = []
